@@ -105,6 +105,22 @@ def main():
         mp = os.path.join(out, "map.go.txt")
         open(mp, "w").write(mp_src.replace("uintptr(rand())", "uintptr(simrand())"))
         ov["Replace"][map_path] = mp
+    # a goroutine of the bubble waiting for a sync.Mutex / RWMutex counts as idle
+    # for synctest.Wait, like one waiting on a sync.Cond: dependencies that run
+    # inside the simulation (net/http, crypto/tls, gorilla) hold mutexes of their
+    # own across calls into the simulated network; without this, a second
+    # goroutine waiting for such a mutex while its holder is parked in the
+    # scheduler would keep Wait from ever returning
+    rt2_path = os.path.join(root, "src/runtime/runtime2.go")
+    rt2 = open(rt2_path).read()
+    IDLE_OLD = "\twaitReasonSyncCondWait:          true,\n"
+    if rt2.count(IDLE_OLD) != 1:
+        print("rtoverlay: isIdleInSynctest patch site not found", file=sys.stderr)
+        sys.exit(3)
+    rt2 = rt2.replace(IDLE_OLD, IDLE_OLD + "\twaitReasonSyncMutexLock:         true,\n\twaitReasonSyncRWMutexRLock:      true,\n\twaitReasonSyncRWMutexLock:       true,\n")
+    rp = os.path.join(out, "runtime2.go.txt")
+    open(rp, "w").write(rt2)
+    ov["Replace"][rt2_path] = rp
     op = os.path.join(out, "overlay.json")
     json.dump(ov, open(op, "w"))
     print(op)
